@@ -207,6 +207,16 @@ func hash160(b []byte) []byte {
 var (
 	worldMu    sync.Mutex
 	worldCache = map[string]*World{}
+	worldOrder []string // least recently used first
+	worldNodes int
+)
+
+// The cache is bounded by the number of cached block nodes (a node carries a
+// full block, its filter and derived data: a 2 600-block world weighs well
+// over 100 MB), not by the number of worlds.
+const (
+	maxCachedWorlds = 64
+	maxCachedNodes  = 9000
 )
 
 // BuildWorld builds (or returns the cached) world of a spec.
@@ -214,17 +224,32 @@ func BuildWorld(spec WorldSpec) *World {
 	key := spec.Key()
 	worldMu.Lock()
 	defer worldMu.Unlock()
+	touch := func() {
+		for i, k := range worldOrder {
+			if k == key {
+				worldOrder = append(worldOrder[:i], worldOrder[i+1:]...)
+				break
+			}
+		}
+		worldOrder = append(worldOrder, key)
+	}
 	if w, ok := worldCache[key]; ok {
+		touch()
 		return w
 	}
 	w := buildWorld(spec)
-	if len(worldCache) > 64 {
-		for k := range worldCache {
-			delete(worldCache, k)
-			break
+	n := len(w.ByHash)
+	for len(worldOrder) > 0 && (len(worldCache) >= maxCachedWorlds || worldNodes+n > maxCachedNodes) {
+		old := worldOrder[0]
+		worldOrder = worldOrder[1:]
+		if ow, ok := worldCache[old]; ok {
+			worldNodes -= len(ow.ByHash)
+			delete(worldCache, old)
 		}
 	}
 	worldCache[key] = w
+	worldNodes += n
+	touch()
 	return w
 }
 
